@@ -19,7 +19,10 @@
           return resp }                                return resp }
 
       (the reuse loop's LAST allowed attempt, retry = 6, does not consult the pool: it always dials)
-      QuicTransport.exchangePayload: as the pipeline loop (`retry < 5`).
+      QuicTransport.exchangePayload: as the pipeline loop (`retry < 5`), and before the retry decision
+        `if isQuicConnErr(err) { t.forgetConn(c) }`: after a connection-level failure the transport
+        drops the connection, so the next `getConn` dials (a closing quic connection fails its streams
+        BEFORE its context is done; `getConn` alone would hand it out again).
       DoHTransport.ExchangeContext : no loop; one `select` on ctx.Done() / the result.
 
   What one attempt does (where the connection came from, whether the exchange on it
@@ -61,6 +64,8 @@ structure Attempt where
   forced : Option (Option Nat)
   /-- … and what `ctxIsDone(ctx)` answers after that -/
   forcedDone : Bool
+  /-- (QUIC) the failure of this attempt is a connection-level error (`isQuicConnErr`) -/
+  connErr : Bool
   deriving DecidableEq, Repr
 
 /-- attempt number ↦ what happens in it. Arbitrary. -/
@@ -126,21 +131,24 @@ def reuseLoop (o : Oracle) (retry i : Nat) : Out :=
       else ⟨none, i + 1⟩
 termination_by 6 - retry
 
-/-- `QuicTransport.exchangePayload` (`retry < 5`; errors are not joined). -/
-def quicLoop (o : Oracle) (retry i : Nat) : Out :=
-  -- c, newConn, err := t.getConn(ctx)
-  match (o i).get with
+/-- `QuicTransport.exchangePayload` (`retry < 5`; errors are not joined). `forgot`: the transport
+    holds no connection because the previous attempt ended with `t.forgetConn(c)`. -/
+def quicLoop (o : Oracle) (retry i : Nat) (forgot : Bool) : Out :=
+  -- c, newConn, err := t.getConn(ctx)      (t.c == nil: a dial, whatever the oracle's pool says)
+  let a := if forgot then forcedDial (o i) else o i
+  match a.get with
   | .poolErr => ⟨none, i + 1⟩
   | .dialErr => ⟨none, i + 1⟩
   | g =>
     let newConn := g == .fresh
     -- b, err := t.exchangeConn(ctx, payload, c)
-    match (o i).res with
+    match a.res with
     | some r => ⟨some r, i + 1⟩
     | none =>
+      -- if isQuicConnErr(err) { t.forgetConn(c) }
       if _h : retry < 5 then
-        if !newConn && !(o i).ctxDone then
-          quicLoop o (retry + 1) (i + 1)
+        if !newConn && !a.ctxDone then
+          quicLoop o (retry + 1) (i + 1) a.connErr
         else ⟨none, i + 1⟩
       else ⟨none, i + 1⟩
 termination_by 5 - retry
@@ -180,10 +188,17 @@ def Kind.lim : Kind → Nat
 /-- the reuse loop's attempts as they really happen: from retry 6 on the pool is not consulted -/
 def reuseEff (o : Oracle) : Oracle := fun i => if i ≤ 5 then o i else forcedDial (o i)
 
+/-- the quic loop's attempts as they really happen: after a connection-level failure the
+    connection is forgotten and the next attempt dials -/
+def quicEff (o : Oracle) : Nat → Attempt
+  | 0 => o 0
+  | i + 1 => if (quicEff o i).connErr then forcedDial (o (i + 1)) else o (i + 1)
+
 /-- the attempts as they really happen in a loop of kind `k` -/
 def eff (k : Kind) (o : Oracle) : Oracle :=
   match k with
   | .reuse => reuseEff o
+  | .quic => quicEff o
   | _ => o
 
 /-- attempts `0 … poolLim` take a pooled connection when the pool offers one -/
@@ -196,7 +211,7 @@ def exchange (k : Kind) (o : Oracle) : Out :=
   match k with
   | .pipeline => pipelineLoop o 0 0
   | .reuse => reuseLoop o 0 0
-  | .quic => quicLoop o 0 0
+  | .quic => quicLoop o 0 0 false
   | .doh => dohOnce o
 
 /-- dials started during attempts `0 … n-1` -/
@@ -290,6 +305,84 @@ def Arm.reply : Arm → Bool
   | .resp => true
   | _ => false
 
+/-! ### the write side of a pipelined TCP / DoT connection: ONE socket write deadline, one write lock
+
+      writeTCP: select { case c.wm <- struct{}{}:            -- the write lock (a 1-buffered channel)
+                       | case <-ctx.Done(): return | case <-c.ctx.Done(): return }
+                defer func() { <-c.wm }()
+                ddl, _ := ctx.Deadline() ; c.c.SetWriteDeadline(ddl) ; c.c.Write(b)
+
+  `SetWriteDeadline` also applies to a Write that is already blocked, so it must only be called by
+  the exchange that holds the lock. Any number of exchanges, any interleaving (`List WOp`). -/
+
+inductive WPc where
+  | idle      -- not in writeTCP
+  | waiting   -- blocked in the select on the write lock
+  | locked    -- holds the lock, deadline not set yet
+  | writing   -- SetWriteDeadline done, inside (possibly blocked in) c.c.Write
+  | done
+  deriving DecidableEq, Repr
+
+structure WState where
+  pc : Nat → WPc
+  /-- holder of `c.wm` -/
+  lock : Option Nat
+  /-- the write deadline in force on the socket (`none`: none) -/
+  sockDdl : Option Nat
+
+def winit : WState := ⟨fun _ => .idle, none, none⟩
+
+def wupd (f : Nat → WPc) (x : Nat) (v : WPc) : Nat → WPc := fun y => if y = x then v else f y
+
+inductive WOp where
+  /-- exchange `x` makes its next move -/
+  | step (x : Nat)
+  /-- exchange `x`, waiting for the lock, leaves through a context arm -/
+  | giveUp (x : Nat)
+  deriving DecidableEq, Repr
+
+/-- `ddl x` = the deadline of exchange `x`'s own context (`none`: it has none) -/
+def wstep (ddl : Nat → Option Nat) (s : WState) : WOp → WState
+  | .step x =>
+    match s.pc x with
+    | .idle => { s with pc := wupd s.pc x .waiting }
+    | .waiting =>
+      match s.lock with
+      | none => { s with pc := wupd s.pc x .locked, lock := some x }   -- case c.wm <- struct{}{}
+      | some _ => s                                                     -- still blocked
+    | .locked => { s with pc := wupd s.pc x .writing, sockDdl := ddl x } -- SetWriteDeadline(ddl); Write
+    | .writing => { s with pc := wupd s.pc x .done, lock := none }      -- Write returned; <-c.wm
+    | .done => s
+  | .giveUp x =>
+    match s.pc x with
+    | .waiting => { s with pc := wupd s.pc x .done }
+    | _ => s
+
+def wrun (ddl : Nat → Option Nat) (s : WState) : List WOp → WState
+  | [] => s
+  | op :: t => wrun ddl (wstep ddl s op) t
+
+/-- the ordering that must NOT be written: the deadline set on entry, before the lock is taken -/
+def wstepEarly (ddl : Nat → Option Nat) (s : WState) : WOp → WState
+  | .step x =>
+    match s.pc x with
+    | .idle => { s with pc := wupd s.pc x .waiting, sockDdl := ddl x }
+    | .waiting =>
+      match s.lock with
+      | none => { s with pc := wupd s.pc x .writing, lock := some x }
+      | some _ => s
+    | .locked => s
+    | .writing => { s with pc := wupd s.pc x .done, lock := none }
+    | .done => s
+  | .giveUp x =>
+    match s.pc x with
+    | .waiting => { s with pc := wupd s.pc x .done }
+    | _ => s
+
+def wrunEarly (ddl : Nat → Option Nat) (s : WState) : List WOp → WState
+  | [] => s
+  | op :: t => wrunEarly ddl (wstepEarly ddl s op) t
+
 /-! ### wait sites: every `select` of the exchange paths with the pinned text of its arms
     (the table itself lives in `Props/C14.lean` because it mentions `Facts`) -/
 
@@ -322,7 +415,8 @@ def Sel.hasCtxArm (s : Sel) : Bool :=
   token = source + behaviour:
     source  p pooled connection · f freshly dialled · g no connection
     p/f behaviours: ok reply · fin / rst peer closes after reading the query · gar undecodable frame ·
-        idle peer closed it while idle (p only) · sil silence · half half a frame then silence
+        idle peer closed it while idle (p only) · sil silence · half half a frame then silence ·
+        kill (QUIC) the whole connection fails with a connection-level error
     g behaviours: R dial refused · B dial never completes (caller's deadline ends the wait) ·
         C pool / transport closed
   `sil`, `half`, `B` end with the caller's context: `ctxDone = true`. -/
@@ -331,15 +425,17 @@ def healthyDial : Option (Option Nat) := some (some 1)
 
 def attemptOfTok (s : String) : Option Attempt :=
   match s with
-  | "pok" => some ⟨.pooled, some 1, false, healthyDial, false⟩
-  | "pfin" | "prst" | "pgar" | "pidle" => some ⟨.pooled, none, false, healthyDial, false⟩
-  | "psil" | "phalf" => some ⟨.pooled, none, true, healthyDial, false⟩
-  | "fok" => some ⟨.fresh, some 1, false, healthyDial, false⟩
-  | "ffin" | "frst" | "fgar" => some ⟨.fresh, none, false, some none, false⟩
-  | "fsil" | "fhalf" => some ⟨.fresh, none, true, some none, true⟩
-  | "gR" => some ⟨.dialErr, none, false, none, false⟩
-  | "gB" => some ⟨.dialErr, none, true, none, true⟩
-  | "gC" => some ⟨.poolErr, none, false, healthyDial, false⟩
+  | "pok" => some ⟨.pooled, some 1, false, healthyDial, false, false⟩
+  | "pfin" | "prst" | "pgar" | "pidle" => some ⟨.pooled, none, false, healthyDial, false, false⟩
+  | "pkill" => some ⟨.pooled, none, false, healthyDial, false, true⟩
+  | "psil" | "phalf" => some ⟨.pooled, none, true, healthyDial, false, false⟩
+  | "fok" => some ⟨.fresh, some 1, false, healthyDial, false, false⟩
+  | "ffin" | "frst" | "fgar" => some ⟨.fresh, none, false, some none, false, false⟩
+  | "fkill" => some ⟨.fresh, none, false, some none, false, true⟩
+  | "fsil" | "fhalf" => some ⟨.fresh, none, true, some none, true, false⟩
+  | "gR" => some ⟨.dialErr, none, false, none, false, false⟩
+  | "gB" => some ⟨.dialErr, none, true, none, true, false⟩
+  | "gC" => some ⟨.poolErr, none, false, healthyDial, false, false⟩
   | _ => none
 
 /-- what a dial does in the world of a script: the behaviour of its first f- or g-token
@@ -356,7 +452,7 @@ def scriptOfStr (s : String) : Option (List Attempt) := do
   pure (l.map fun a => { a with forced := d.1, forcedDone := d.2 })
 
 /-- beyond the script: no pooled connection is left and the server is healthy -/
-def defaultAttempt : Attempt := ⟨.fresh, some 1, false, healthyDial, false⟩
+def defaultAttempt : Attempt := ⟨.fresh, some 1, false, healthyDial, false, false⟩
 
 def oracleOf (l : List Attempt) : Oracle := fun i => l.getD i defaultAttempt
 
@@ -397,6 +493,8 @@ def predict (k : Kind) (o : Oracle) (obs : String) : Obs :=
   * returns no later than the deadline plus slack, whatever the server does;
   * a failure on a pooled connection while a healthy server is reachable (context live):
     retried — at most `lim` times — and succeeds;
+  * QUIC: a connection that is dying (streams fail with a connection-level error before its context
+    is done) is not handed out again: the retry dials and, with a healthy server, succeeds;
   * connection-reuse transports: however many stale connections the pool holds, if a dial reaches
     a healthy server (and the context is live) the exchange succeeds;
   * a bounded number of attempts; a failure on a freshly dialled connection is reported, not
@@ -424,12 +522,26 @@ def freshFailureAt (lim : Nat) (l : List Attempt) : Option Nat :=
   let a := l.getD j defaultAttempt
   if decide (j ≤ lim) && a.get == .fresh && a.res.isNone then some j else none
 
+/-- (QUIC) no attempt of the stale prefix failed with a connection-level error — such a failure
+    changes what the NEXT attempt is (a dial), see `quicKillThenDial` -/
+def plainPrefix (k : Kind) (l : List Attempt) : Bool :=
+  !(k == .quic && (l.takeWhile isStale).any (·.connErr))
+
+/-- (QUIC) after `j ≤ 4` plain stale attempts a pooled attempt fails with a connection-level error
+    (the connection is dying) while the context is live, and a dial reaches a healthy server -/
+def quicKillThenDial (l : List Attempt) : Bool :=
+  let j := (l.takeWhile fun a => isStale a && !a.connErr).length
+  let a := l.getD j defaultAttempt
+  decide (j ≤ 4) && isStale a && a.connErr &&
+    ((l.getD (j + 1) defaultAttempt).forced.getD none).isSome
+
 def spec (k : Kind) (l : List Attempt) (o : Obs) : Bool :=
   o.t != "late" &&
-  (match freshFailureAt k.poolLim l with
+  (match (if plainPrefix k l then freshFailureAt k.poolLim l else none) with
    | some j => !o.ok && (match o.att with | some a => decide (a ≤ j + 1) | none => true)
    | none => true) &&
-  (if k != .doh && staleThenHealthy k.poolLim l then o.ok else true) &&
+  (if k != .doh && plainPrefix k l && staleThenHealthy k.poolLim l then o.ok else true) &&
+  (if k == .quic && quicKillThenDial l then o.ok else true) &&
   (if k == .reuse && stalePoolHealthyServer l then o.ok else true) &&
   (match o.att with | some a => decide (a ≤ k.lim + 1) | none => true) &&
   (match o.dials with | some d => decide (d ≤ 1) | none => true) &&
@@ -438,10 +550,11 @@ def spec (k : Kind) (l : List Attempt) (o : Obs) : Bool :=
 
 def specReason (k : Kind) (l : List Attempt) (o : Obs) : String :=
   if o.t == "late" then "late"
-  else if (match freshFailureAt k.poolLim l with
+  else if (match (if plainPrefix k l then freshFailureAt k.poolLim l else none) with
       | some j => o.ok || (match o.att with | some a => decide (a > j + 1) | none => false)
       | none => false) then "fresh-failure-not-returned"
-  else if k != .doh && staleThenHealthy k.poolLim l && !o.ok then "stale-not-survived"
+  else if k != .doh && plainPrefix k l && staleThenHealthy k.poolLim l && !o.ok then "stale-not-survived"
+  else if k == .quic && quicKillThenDial l && !o.ok then "dying-conn-not-survived"
   else if k == .reuse && stalePoolHealthyServer l && !o.ok then "stale-pool-not-survived"
   else if (match o.att with | some a => decide (a > k.lim + 1) | none => false) then "unbounded"
   else if (match o.dials with | some d => decide (d > 1) | none => false) then "fresh-retried"
@@ -493,8 +606,8 @@ def run (case impl : String) : String × String :=
   out : `res=<o|e per waiter> woke=<0|1> t=<prompt|intime|late> leak=<n>` -/
 
 def waiterOracle (fresh nextOk : Bool) : Oracle := fun i =>
-  if i = 0 then ⟨if fresh then .fresh else .pooled, none, false, none, false⟩
-  else if nextOk then ⟨.fresh, some 1, false, none, false⟩ else ⟨.dialErr, none, false, none, false⟩
+  if i = 0 then ⟨if fresh then .fresh else .pooled, none, false, none, false, false⟩
+  else if nextOk then ⟨.fresh, some 1, false, none, false, false⟩ else ⟨.dialErr, none, false, none, false, false⟩
 
 /-- all waiters are parked on `c`, `c` dies; each one whose `connDone` arm is ready returns an
     error from `exchange` and goes through the pipeline retry loop -/
